@@ -77,6 +77,32 @@ def random_cases(n):
     return lines
 
 
+def long_cases(n):
+    """strings well beyond the exhaustive bound (13..40 bytes): would expose a size-dependent fast path"""
+    lines = []
+    for i in range(n):
+        h = rand_string(13, 40)
+        a = rng.below(len(h)); b = rng.range(a, min(len(h), a + 20))
+        s = h[a:b]
+        if rng.chance(1, 3) and s:
+            s = list(s); s[rng.below(len(s))] = rng.choice(ALPHA_BYTES)
+        k = rng.below(4)
+        if k == 0:   lines.append("hay %s" % hx(h))
+        elif k == 1: lines.append("alias %s %d %d %d %d" % (hx(h), a, b - a, rng.below(a + 1), rng.below(len(h) - a + 1)))
+        else:        lines.append("pair %s %s" % (hx(h), hx(s)))
+    return lines
+
+
+def byte_sweep():
+    """every byte value 0..255 once as haystack, needle, neighbour and sign-flipped partner: a special case for one
+    particular character (outside the 5-letter alphabet) cannot hide"""
+    lines = []
+    for b in range(256):
+        lines += ["hay %02x" % b, "pair %02x %02x" % (b, b), "pair %02x %02x" % (b, b ^ 0x80),
+                  "pair %02x %02x" % (b, (b + 1) % 256), "pair 61%02x62 %02x" % (b, b)]
+    return lines
+
+
 def null_view_cases():
     """default-constructed views (data() == nullptr) on either side, against every needle/hay of length <= 2"""
     small = [[]] + [[a] for a in ALPHA_BYTES] + [[a, b] for a in ALPHA_BYTES for b in ALPHA_BYTES]
@@ -96,12 +122,14 @@ else:
     if ck.thorough():
         maxh, maxs, c5h, c5s, nrand = 5, 3, 3, 3, 20000
         afull, asmall = 4, 5          # aliasing: all buffers <= afull over ALPHA, buffers of length asmall over {00,'a',FF}
+        nlong = 400
     else:
+        nlong = 40
         maxh, maxs, c5h, c5s, nrand = 4, 3, 2, 2, 1500
         afull, asmall = 3, 4
     enum_desc = ("enum %s maxhay=%d maxneedle=%d cmp5: hay<=%d needle<=%d; aliasing: every (ordered) pair of sub-ranges of every "
                  "buffer over %s with |buf|<=%d and over 0061ff with |buf|=%d" % (ALPHA, maxh, maxs, c5h, c5s, ALPHA, afull, asmall))
-    rnd = random_cases(nrand)
+    rnd = random_cases(nrand) + long_cases(nlong) + byte_sweep()
     parts_lines = []
     for k in range(PARTS):
         ls = []
@@ -285,7 +313,9 @@ ck.finish({
             "heap buffer (same start/different length, same end, identical, adjacent, overlapping, disjoint: counted in input_distribution), "
             "M = the unary queries on a view in the middle of a larger buffer (reads outside the view hit foreign bytes, not redzones); "
             "'~' operands are default-constructed views (data() == nullptr). Complete enumeration: " + enum_desc +
-            "; then the corpus of defect witnesses and VERIF_SEED-dependent random strings of length 5..12 (needles cut out of the haystack). "
+            "; then the corpus of defect witnesses, default-constructed views against all operands of length <= 2, a sweep over all 256 byte "
+            "values, and VERIF_SEED-dependent random strings of length 5..12 and 13..40 (needles cut out of the haystack, aliasing ranges). "
+            "Every block also uses positions/counts 2^32, 2^32+1 and npos-1. "
             "distinct_nontrivial = number of distinct blocks (kind, hay, needle) with non-empty operands in which at least one find/rfind "
             "with a non-empty needle found an occurrence, i.e. the needle (or a probed character) really occurs in the haystack "
             "(counted by a probe in the model driver).",
